@@ -148,7 +148,10 @@ def check(F, rep, tier):
     for f0 in [g for g in cands if g.path not in called]:
         f = mir.inlined(F, f0, depth=6)
         for bi, t in f.calls():
-            if not (mir.callee(t) or "").endswith("Vec::<T, A>::push"): continue
+            cal = mir.callee(t) or ""
+            is_push = cal.endswith("Vec::<T, A>::push")
+            is_extend = cal.endswith("Extend<T>>::extend") or cal.endswith("Vec::<T, A>::extend") or cal.endswith("::extend")
+            if not (is_push or is_extend): continue
             recv = mir.trace_op(f, t[2][0], transparent=())
             tgt = None
             for o in recv:
@@ -160,6 +163,13 @@ def check(F, rep, tier):
             n_push += 1
             home = (f.blocks[bi].get("from") or f0.path).replace("crate::", "")
             site = "%s (in %s) bb%d line %s" % (f.where(), home, bi, f.blocks[bi]["line"])
+            if is_extend:
+                # `.extend(parts.filter(|p| !p.is_empty()).map(..).collect())`: every element went through the filter
+                good = any(mir.closure_is_nonempty_test(c) for c in mir.pipeline_filters(F, f, t[2][1]))
+                key = "%s#%s" % (home, tgt)
+                if good: rep.ok("R01.4", "extend of %s with a pipeline filtered by !is_empty()" % tgt, sample=site, nontrivial_key=key + str(bi))
+                else: rep.bad("R01.4", "empty-identifier:" + key, "identifiers are appended to %s from a pipeline without a non-empty filter (an empty identifier is invalid in both grammars)" % tgt, site)
+                continue
             # the guard must be about the pushed element itself (not about the whole value it was split from)
             elem = mir.deep_origins(f, t[2][1])
             good = False
@@ -172,7 +182,7 @@ def check(F, rep, tier):
             key = "%s#%s" % (home, tgt)
             if good: rep.ok("R01.4", "push into %s guarded by !is_empty() (if / filter)" % tgt, sample=site, nontrivial_key=key + str(bi))
             else: rep.bad("R01.4", "empty-identifier:" + key, "an identifier is pushed into %s without a non-empty guard (an empty identifier is invalid in both grammars)" % tgt, site)
-    rep.floor("R01.4", "identifier pushes on the rendering path", n_push, 4)
+    rep.floor("R01.4", "identifier pushes on the rendering path", n_push, 3)
     # ---- R01.6 a PEP 440 version always has a release segment ---------------------------------------
     pf = F.find(FROMS[1])
     if pf:
